@@ -717,6 +717,11 @@ Definition tape1 {A} (d : A) (l : list (nat * Q * A)) (k : nat) (x : Q) : A :=
 Definition tape2 {A} (d : A) (l : list (nat * Q * Q * A)) (k : nat) (x y : Q) : A :=
   match find (fun p => Nat.eqb (fst (fst (fst p))) k && qapproxb (snd (fst (fst p))) x && qapproxb (snd (fst p)) y) l with
   | Some p => snd p | None => d end.
+(* was the oracle called at tick k with the arguments recorded on the implementation?  (the correspondence files answer a call
+   whose arguments differ from the recorded ones with an out-of-range value, once a huge one and once a hugely negative one, so that
+   a model that evaluates H / S at another (T, P) than the code does -- a bracket end widened or not -- cannot go unnoticed) *)
+Definition hit2 (l : list (nat * Q * Q)) (k : nat) (x y : Q) : bool :=
+  existsb (fun p => Nat.eqb (fst (fst p)) k && qapproxb (snd (fst p)) x && qapproxb (snd p) y) l.
 (* a tape as a function of the tick *)
 Definition tape {A} (d : A) (l : list (nat * A)) (k : nat) : A :=
   match find (fun p => Nat.eqb (fst p) k) l with Some p => snd p | None => d end.
